@@ -541,6 +541,12 @@ func (cs *Contracts) loadFile(path string) error {
 				cur.Props = append(cur.Props, ps...)
 			}
 		default:
+			if ok, err := extClause(word, rest, pkg, cur, curLemma); ok { // ext_induct.go: induct, uses, pattern, recframe
+				if err != nil {
+					return fail(err)
+				}
+				continue
+			}
 			return fail(fmt.Errorf("unknown clause %q", word))
 		}
 	}
